@@ -3,6 +3,7 @@ Props/C27 — query output does not depend on the evaluation route (model part).
 Property theorems only; helper lemmas live in Proof/JqCursor.lean.
 -/
 import SuccinctlyVerif.Proof.JqCursor
+import SuccinctlyVerif.Proof.JqOutput
 namespace SV.Props.C27
 open SV SV.JqOut
 
@@ -28,6 +29,28 @@ printing the remaining elements / members structurally. -/
 theorem stream_siblings_eq (c : Cfg) (xs : List V) (x0 : V) (lvl f : Nat) (h : stepsList xs ≤ f) :
     streamSibs c f lvl ⟨x0, none, elemsOf xs⟩ = renderRest c lvl xs :=
   sibsElems c xs f lvl x0 none h
+
+/-- `routes_agree`: in the model (as the code stands after the `fix:` commits for `--indent 0` and
+raw DEL) the three jq printing routes write the same JSON text for every well-formed value and
+every option set without `--preserve-input`: the lazy cursor printer and the lazy owned printer
+always, and the materialised printer whenever `-S` does not reorder keys. What remains
+route-specific is exactly `--preserve-input` (lazy routes keep duplicates and number spelling)
+— the recorded finding C27-jq-preserve. -/
+theorem routes_agree (o : Opts) (fmt : Bytes → Bytes) (v : V) (hv : v.wf = true) (hp : o.preserve = false) :
+    body o .cursor fmt v = body o .ownedLazy fmt v ∧
+      (o.sortKeys = false → body o .ownedLazy fmt v = body o .mat fmt v) := by
+  have hw := wf_collapseDeep v hv
+  constructor
+  · simp only [body, Opts.cfg, Opts.prep, hp, Bool.false_eq_true, ↓reduceIte]
+    exact (render_owned _ _ 0 hw).symm
+  · intro hs
+    simp only [body, Opts.cfg, Opts.prep, hp, hs, Bool.false_eq_true, ↓reduceIte]
+
+/-- non-vacuity: a raw DEL and `--indent 0` print the same on the cursor and materialised routes -/
+example :
+    let v : V := .arr [.str ⟨[Char.ofNat 0x7f], false⟩, .obj [(⟨['a'], false⟩, .num [0x31])]]
+    body { indent := some 0 } .cursor id v = body { indent := some 0 } .mat id v := by
+  decide
 
 /-- non-vacuity: a cursor two levels down, reached by navigation, prints its own node -/
 example :
